@@ -26,23 +26,23 @@ type scriptConn struct {
 	mu   sync.Mutex
 	cond *sync.Cond
 
-	in        []byte // server bytes ready to be read
-	segs      []int  // sizes of the next reads (consumed one per Read); nil/empty: as much as requested
+	in           []byte // server bytes ready to be read
+	segs         []int  // sizes of the next reads (consumed one per Read); nil/empty: as much as requested
 	eofWhenEmpty bool
-	delivered int
+	delivered    int
 
-	written     []byte
-	writeCalls  []int
-	failWriteAt int // fail once the total number of written bytes would exceed this; -1 never
+	written       []byte
+	writeCalls    []int
+	failWriteAt   int // fail once the total number of written bytes would exceed this; -1 never
 	blockWritesAt int // from this total on, writes block (peer stopped reading) until the write deadline or Close; -1 never
-	wdl         time.Time
-	onWrite     func(total int, p []byte)
+	wdl           time.Time
+	onWrite       func(total int, p []byte)
 
-	closed     bool
-	closeCalls int
-	closeErr   error
-	rdl        time.Time
-	ops        []string // trace of conn calls
+	closed                            bool
+	closeCalls                        int
+	closeErr                          error
+	rdl                               time.Time
+	ops                               []string // trace of conn calls
 	readsAfterClose, writesAfterClose int
 }
 
@@ -174,8 +174,12 @@ func (c *scriptConn) Close() error {
 	return err
 }
 
-func (c *scriptConn) LocalAddr() net.Addr  { return &net.TCPAddr{IP: net.IPv4(127, 0, 0, 1), Port: 50000} }
-func (c *scriptConn) RemoteAddr() net.Addr { return &net.TCPAddr{IP: net.IPv4(127, 0, 0, 1), Port: 9000} }
+func (c *scriptConn) LocalAddr() net.Addr {
+	return &net.TCPAddr{IP: net.IPv4(127, 0, 0, 1), Port: 50000}
+}
+func (c *scriptConn) RemoteAddr() net.Addr {
+	return &net.TCPAddr{IP: net.IPv4(127, 0, 0, 1), Port: 9000}
+}
 func (c *scriptConn) SetDeadline(t time.Time) error {
 	c.SetReadDeadline(t)
 	c.SetWriteDeadline(t)
@@ -339,9 +343,9 @@ func (e srvEnc) pong() []byte        { return []byte{4} }
 // ---------------------------------------------------------------- connecting a real client
 
 type simClient struct {
-	conn   *scriptConn
-	client *ch.Client
-	enc    srvEnc
+	conn     *scriptConn
+	client   *ch.Client
+	enc      srvEnc
 	helloLen int // bytes the client wrote during the handshake
 }
 
